@@ -85,8 +85,10 @@ impl Default for CheckOpts {
 
 /// true when some relu in the program sees an input that is exactly zero (sub-gradient choice is not specified)
 pub fn program_has_kink(p: &Program, refv: &[T<f64>]) -> bool {
+    // integer programs: exactly zero; otherwise within rounding distance of zero (relative to the program's magnitudes)
+    let eps = if p.is_exact_class() { 0.0 } else { 10.0 * tau() * refv.iter().map(|t| t.max_abs()).fold(1.0f64, f64::max) };
     p.nodes.iter().any(|n| match n {
-        Node::Op { kind: OpKind::Relu, args, .. } => has_kink(&refv[args[0]]),
+        Node::Op { kind: OpKind::Relu, args, .. } => near_kink(&refv[args[0]], eps),
         _ => false,
     })
 }
